@@ -96,7 +96,9 @@ def gen_case(rng, stream, attrs):
     defaults = {rng.choice(pool): jv() for _ in range(rng.randint(0, 4))}
     data = {rng.choice(pool): jv() for _ in range(rng.randint(0, 4))}
     return {"mode": "json", "defaults": defaults, "data": data, "msg": gen_str(rng, 1, 6, True, percent_ok=False),
-            "datefmt": rng.choice([None, "", "%Y", "%H:%M"]), "created": rng.randint(0, 2**31 - 1)}
+            "datefmt": rng.choice([None, "", "%Y", "%H:%M"]), "created": rng.randint(0, 2**31 - 1),
+            # the same record may have passed through another handler's formatter before
+            "pre": rng.choice([None, None, "line", "text", "json"])}
 
 
 # ---------------------------------------------------------------- reference decoder (Python)
@@ -188,6 +190,12 @@ def classify(tok):
 
 # ---------------------------------------------------------------- implementation drivers
 
+def rec_text_safe(rec):
+    """let a plain text formatter set `asctime` on the very record (its %-args are a mapping: the message has no
+    conversions, so formatting it is harmless)"""
+    return rec
+
+
 def impl(case, attrs=None):
     from cobald.monitor.format_line import line_protocol, LineProtocolFormatter
     from cobald.monitor.format_json import JsonFormatter
@@ -210,8 +218,18 @@ def impl(case, attrs=None):
             fm = JsonFormatter(dict(case["defaults"]), datefmt=case["datefmt"])
             rec = logging.LogRecord("n", logging.INFO, "p", 1, case["msg"], (dict(case["data"]),), None)
             rec.created = float(case["created"])
+            try:
+                # (whether that other formatter likes the record is its own business)
+                if case.get("pre") == "line":
+                    LineProtocolFormatter().format(rec)
+                elif case.get("pre") == "text":
+                    logging.Formatter("%(asctime)s", datefmt="%d.%m.").format(rec)
+                elif case.get("pre") == "json":
+                    JsonFormatter({}, datefmt="%S").format(rec)
+            except Exception:
+                pass
             out = fm.format(rec)
-            return {"out": out, "time": fm.formatTime(rec, case["datefmt"])}
+            return {"out": out, "time": logging.Formatter().formatTime(rec, case["datefmt"])}
     except Exception as e:
         return {"error": type(e).__name__}
     return {"out": out}
